@@ -39,6 +39,7 @@ type MacroDef struct {
 	Name     string    `json:"name"`
 	Params   []string  `json:"params"`
 	Template *gen.Node `json:"template"`
+	Form     int       `json:"form,omitempty"` // 0: body is quote(T); 1: return quote(T); 2: if true { return quote(T) }; quote(0); 3: a statement before quote(T)
 }
 
 // Input is one REPL input: either a macro definition or statements that may call macros.
@@ -67,6 +68,14 @@ func unq(p string) *gen.Node { return gen.Builtin("unquote", gen.Id(p)) }
 
 func defSource(d *MacroDef) string {
 	body := gen.PrintExpr(gen.Builtin("quote", d.Template))
+	switch d.Form {
+	case 1:
+		body = "return " + body
+	case 2:
+		body = "if true { return " + body + " }; quote(0)"
+	case 3:
+		body = "zunused = 1; " + body
+	}
 	return fmt.Sprintf("%s = macro(%s) { %s }", d.Name, strings.Join(d.Params, ", "), body)
 }
 
@@ -365,7 +374,8 @@ func TestSessions(t *testing.T) {
 				}
 			}
 			g := &tgen{t: rt, params: params, uses: map[string]int{}}
-			d := &MacroDef{Name: fmt.Sprintf("mac%d", i), Params: params, Template: g.template(rapid.IntRange(1, 3).Draw(rt, "tdepth"))}
+			d := &MacroDef{Name: fmt.Sprintf("mac%d", i), Params: params, Template: g.template(rapid.IntRange(1, 3).Draw(rt, "tdepth")),
+				Form: rapid.SampledFrom([]int{0, 0, 0, 1, 2, 3}).Draw(rt, "bodyform")}
 			for _, n := range g.uses {
 				if n >= 2 {
 					multiUse = true
